@@ -185,8 +185,15 @@ func trimStack(st string) string {
 	lines := strings.Split(st, "\n")
 	var out []string
 	for _, l := range lines {
-		if strings.Contains(l, "flyt") && !strings.Contains(l, "zzvrt/core") {
-			out = append(out, strings.TrimSpace(l))
+		if strings.Contains(l, ".go:") && !strings.Contains(l, "zzvrt/core") && !strings.Contains(l, "/runtime/") {
+			l = strings.TrimSpace(l)
+			if i := strings.Index(l, " +0x"); i >= 0 {
+				l = l[:i]
+			}
+			if i := strings.LastIndex(l, "/"); i >= 0 {
+				l = l[i+1:]
+			}
+			out = append(out, l)
 		}
 		if len(out) > 12 {
 			break
@@ -259,7 +266,7 @@ func WaitQuiescent() []string {
 	s.point(&op{kind: "quiesce", quiesce: true, enabled: func() bool { return true }})
 	var live []string
 	for _, t := range s.threads {
-		if !t.done && t != s.cur {
+		if !t.done && t != s.cur && !strings.HasPrefix(t.name, "harness:") {
 			d := fmt.Sprintf("thread %d (%s)", t.id, t.name)
 			if t.pend != nil {
 				d += " blocked at " + t.pend.kind
@@ -438,12 +445,31 @@ func (s *Sched) describeBlocked() string {
 	return strings.Join(parts, " ")
 }
 
+// logf records an event lazily: formatting happens only if somebody reads the log.
 func (s *Sched) logf(format string, a ...any) {
 	tid := -1
 	if s.cur != nil {
 		tid = s.cur.id
 	}
-	s.x.Log = append(s.x.Log, fmt.Sprintf("[T%d t=%d] ", tid, s.clock)+fmt.Sprintf(format, a...))
+	s.x.log = append(s.x.log, logEntry{tid: tid, clock: s.clock, format: format, args: a})
+}
+
+type logEntry struct {
+	tid    int
+	clock  int64
+	format string
+	args   []any
+}
+
+// RenderLog formats the event log (call after the execution is over).
+func (x *Execution) RenderLog() []string {
+	if x.Log == nil && len(x.log) > 0 {
+		x.Log = make([]string, len(x.log))
+		for i, e := range x.log {
+			x.Log[i] = fmt.Sprintf("[T%d t=%d] ", e.tid, e.clock) + fmt.Sprintf(e.format, e.args...)
+		}
+	}
+	return x.Log
 }
 
 // Logf appends a line to the execution's event log.
